@@ -34,6 +34,14 @@ def key_fn(case, obs, verdict):
         m = re.search(r"\(n=(\d+) lines of (\d+)\)", verdict)
         lost = bool(m) and m.group(1) != m.group(2)
         return "phout-aggregator:small-queue:%s" % ("not-one-line-per-request" if lost else "line-fields")
+    if f[0] == "engine":
+        # the pool run through the real engine: lines lost / run not ending / lines of other requests
+        if obs.startswith("err=hang"):
+            return "engine-run:startup-%s:run-does-not-end" % "+".join(w.split(":")[0] for w in f[2].split("+"))
+        import re
+        m = re.search(r"\(n=(\d+) lines of (\d+)\)", verdict)
+        what = "not-one-line-per-fired-request" if m else ("ids" if "ids" in verdict else "line-fields")
+        return "engine-run:startup-%s:%s" % ("+".join(w.split(":")[0] for w in f[2].split("+")), what)
     if f[0] == "scfile":
         if obs == "providererr" or "refuse" in verdict:
             return "scenario-file:%s:provider-acceptance" % f[1]
@@ -64,8 +72,8 @@ def run(ctx):
               "with a fault or invalid ammo, or with auto-tag on a path of >=2 bytes; scenario cases with >=2 steps; every gshoot case; "
               "distinct = distinct case lines"),
         key_fn=key_fn,
-        translators=[("grpcstatus", "GrpcStatusGen.v"), ("consts", "ConstGen.v"), ("gofn-httpgun", "GoFnHttpgunGen.v"), ("pooldeps", "PoolDepsGen.v")],
-        bridge_files=["Gen/GrpcStatus_bridge.v", "Gen/Const_bridge.v", "Gen/GoFnHttpgun_bridge.v", "Gen/PhoutReport_bridge.v"],
+        translators=[("grpcstatus", "GrpcStatusGen.v"), ("consts", "ConstGen.v"), ("gofn-httpgun", "GoFnHttpgunGen.v"), ("pooldeps", "PoolDepsGen.v"), ("phout", "PhoutGen.v")],
+        bridge_files=["Gen/GrpcStatus_bridge.v", "Gen/Const_bridge.v", "Gen/GoFnHttpgun_bridge.v", "Gen/PhoutReport_bridge.v", "Gen/EngineRun_bridge.v"],
         trusted=[
             "translator harness/cmd/translate (grpcstatus: go/ast over ConvertGrpcStatus + markdown table; consts: values compiled from /repo)",
             "extraction: ExtrOcamlBasic only; OCaml driver ocaml/C10/main.ml + ocaml/common/conv.ml (zarith for decimal I/O)",
@@ -80,6 +88,10 @@ def run(ctx):
             "cfggun / gjson cases: components imported into the default registry, a minimal YAML section decoded by the real config decoder and plugin hooks into a gun factory / provider "
             "(http, http2 against an in-process TLS h2 target, connect, http/scenario, http2/scenario, grpc, grpc/scenario; grpc/json provider over long heterogeneous files with Release); "
             "expected auto-tag settings = the documented defaults overlaid by the section",
+            "engine cases: a whole pool section (gun http / connect, ammo: uri file with limit / passes, result: phout with ids and a queue size, rps shared / per instance, "
+            "startup once / const / line / step / instance_step / composite) decoded by the real config decoder into engine.Config and run by the real engine against a target that answers "
+            "after a delay and keeps the paths it received; lines of the results file vs requests received; code-shaped side = Model/ShootEngine.v (slow-target trace, variant from translate phout: "
+            "runCancel() only in checkAllInstancesAreFinished)",
             "modelled, not verified: which Go error values the network stack produces for a fault (the harness records the shape of the error value the gun got "
             "and the model's get_errno is applied to it); the errno Linux yields per fault (refused 111, stall 110, reset 104, short body / refused CONNECT 999) is a table in the OCaml driver; "
             "errors.Cause/Underlying unwrapping is modelled by the EWrap constructor",
